@@ -8,7 +8,7 @@
     the evaluated sets of the in-place subschemas that are valid (nothing from `not`, nothing from a
     subschema that is invalid); `unevaluated*` apply to the complement;
   * under draft-07 the keywords later drafts introduced (`minContains`, `maxContains`, `unevaluatedItems`,
-    `unevaluatedProperties`) are unknown keywords: they assert nothing and evaluate nothing (`vocab`);
+    `unevaluatedProperties`, `$dynamicRef`) are unknown keywords: they assert nothing and evaluate nothing (`vocab`);
   * `$ref` goes where `refTarget` says (C03 ties that to RFC 3986 resolution); `$dynamicRef` goes to
     the outermost schema resource of the dynamic scope that declares the dynamic anchor, when the
     initial target carries such an anchor, and to the initial target otherwise.
@@ -293,13 +293,15 @@ def kwUnevaluatedProps (sub : NodeId → Json → Out) (n : Node) (j : Json) (ev
 
 /-! ### the vocabulary of the draft -/
 
-/-- The schema object as a validator of draft `d` reads it.  `minContains`, `maxContains`, `unevaluatedItems` and
-    `unevaluatedProperties` are keywords of 2020-12 only: under draft-07 they are unknown keywords, which a
-    validator ignores — they are absent as far as validity and the evaluated sets go.  (The other keywords whose
+/-- The schema object as a validator of draft `d` reads it.  `minContains`, `maxContains`, `unevaluatedItems`,
+    `unevaluatedProperties` and `$dynamicRef` are keywords of 2020-12 only: under draft-07 they are unknown keywords,
+    which a validator ignores — they are absent as far as validity and the evaluated sets go (a draft-07
+    `$dynamicRef` designates nothing: it need not even resolve).  (The other keywords whose
     meaning depends on the draft — `items`, `prefixItems`, `dependencies`, `dependent*` — are dispatched inside
     their keyword functions, which read the form of their own draft only.) -/
 def vocab (d : Draft) (n : Node) : Node :=
   { n with
+    dynamicRef := if d == .d7 then "" else n.dynamicRef
     minContains := if d == .d7 then none else n.minContains
     maxContains := if d == .d7 then none else n.maxContains
     unevaluatedItems := if d == .d7 then none else n.unevaluatedItems
@@ -320,7 +322,7 @@ def evalStep (env : Env) (rec : Rec) (scope0 : List NodeId) (s : NodeId) (j : Js
     else
       let asserts := typeOk n j && enumOk n j && constOk n j && numericOk n j && stringOk env n j &&
                      arrayLimitsOk n j && objectLimitsOk env n j
-      match sequence [kwRef env sub s n j, kwDynamicRef env sub scope s n j, kwAllOf sub n j, kwAnyOf sub n j,
+      match sequence [kwRef env sub s n j, kwDynamicRef env sub scope s nv j, kwAllOf sub n j, kwAnyOf sub n j,
                       kwOneOf sub n j, kwNot sub n j, kwIf sub n j, kwItems env sub n j, kwContains sub nv j,
                       kwProps env sub n j, kwPropertyNames sub n j, kwDependentSchemas env sub n j] with
       | none => none
